@@ -248,7 +248,7 @@ pub fn run(run: &RunInfo) -> Summary {
             "two open tokens that share a long prefix".into(),
             "a begin hit by a transport fault still recorded the receipt issued for it".into(),
         ],
-        assumptions: vec!["no transport faults in this check (C09/C10)".into(), "which ActiveTransaction text is used when both refusal reasons hold is not specified".into()],
+        assumptions: vec!["transport faults: at most one per history, in the dedicated pass of depth 3 (thorough 4); what a call hit by a fault must still guarantee is listed in DESIGN.md 13.5 (eighth wave)".into(), "which ActiveTransaction text is used when both refusal reasons hold is not specified".into()],
         bounds: json!({"depth": depth, "tokens": 3, "max": "0..=3"}),
         caps_hit: caps,
         evaluations_counter: "evaluations".into(),
